@@ -788,6 +788,13 @@ func (w *world) channel(r round) {
 	}
 }
 
+// rollWhilePending: the forced re-key roll produced an announcement although a pair was still
+// pending (keyNextSync must refuse: the pending pair is the one the server may already be using).
+func rollWhilePending(w *world, r round) {
+	out.Fail("keyNextSync drew a new KeyPair while one was still pending: the pending pair is overwritten before it was swapped or reverted",
+		"rekey-drawn-while-pending", map[string]interface{}{"history": append(append([]round(nil), w.hist...), r), "finding_shape": w.taint})
+}
+
 // exchange executes one exchange on the real code and appends `(events, observation)` for the model.
 func (w *world) exchange(r round) {
 	var (
@@ -847,6 +854,9 @@ func (w *world) exchange(r round) {
 			c2.VerifC06Queue(w.cli, &com.Packet{Device: w.id})
 		}
 		ev = append(ev, fmt.Sprintf("RekeySend %d", k))
+		if n != nil && nextBefore != nil {
+			rollWhilePending(w, r)
+		}
 	case r.Kind == "batch":
 		// the state the race in next() produces: pick() returned the announcement (the queue was
 		// empty), a concurrent Session.Write queued a data Packet before next() looked at the queue
@@ -854,6 +864,9 @@ func (w *world) exchange(r round) {
 		if n != nil {
 			rekeyed = true
 			c2.VerifC06Queue(w.cli, n)
+		}
+		if n != nil && nextBefore != nil {
+			rollWhilePending(w, r)
 		}
 		d := &com.Packet{ID: idClientData, Device: w.id, Job: uint16(2 + rng.Intn(60000))}
 		d.Write(p)
@@ -1007,15 +1020,16 @@ func (w *world) exchange(r round) {
 	case w.taint == fB && r.Fault == "write" && nextBefore != nil && !pending && w.oldShare != nil && cshare == *w.oldShare:
 		// the undelivered announcement was cancelled by a later failed write: nothing is left of it
 		w.taint, w.oldShare = "", nil
-	case (r.Kind == "rekey" || r.Kind == "batch") && rekeyed && r.Fault == "lost-after" && pending:
+	case (r.Kind == "rekey" || r.Kind == "batch") && rekeyed && r.Fault == "lost-after" && pending && (w.taint == "" || w.taint == fA):
+		// (a shape is entered from agreement only: inside a permanent finding the history stays there)
 		w.taint, w.sinceLoss = fA, 0
-	case (r.Kind == "rekey" || r.Kind == "batch") && rekeyed && r.Fault == "lost-after" && regBefore && !pending:
+	case (r.Kind == "rekey" || r.Kind == "batch") && rekeyed && r.Fault == "lost-after" && regBefore && !pending && w.taint == "":
 		// NOT the known behaviour: the write succeeded, the server swapped, only the reply was lost, and
 		// the client has already discarded the announced key: it can never catch up
 		w.taint, w.sinceLoss = "rekey-reply-lost-never-heals", 0
 		out.Fail("after a re-key whose reply was lost the client no longer holds the announced key (keysNext discarded although the write succeeded): it will never catch up with the server",
 			w.taint, map[string]interface{}{"history": w.hist})
-	case rekeyed && r.Fault == "lost-before" && pending:
+	case rekeyed && r.Fault == "lost-before" && pending && w.taint == "":
 		w.taint, w.sinceLoss = fB, 0
 		s := shareBefore
 		w.oldShare = &s
@@ -1166,6 +1180,15 @@ func corpus() {
 	// KNOWN FINDING rekey-reply-lost-after-server-processed: the server processed the announcement, the reply was lost
 	runHistory([]round{c, rd("data", "", "before", "b"), rd("rekey", "lost-after", "", ""), rd("data", "", "secret-payload", "server-task"), rd("data", "", "healed", "h"),
 		rd("data", "", "healed-2", "h2"), rd("rekey", "", "", "h3"), rd("data", "", "healed-4", "h4")}, "hist-finding-reply-lost")
+	// the re-key roll fires AGAIN while the pair of the lost reply is still pending (keyNextSync must refuse:
+	// an empty Packet goes out, the exchange is the one garbled exchange, then healed), also twice in a row,
+	// with a data Packet queued behind, after an undelivered announcement, after a failed write, after a clean round
+	runHistory([]round{c, rd("data", "", "before", "b"), rd("rekey", "lost-after", "", ""), rd("rekey", "", "", "server-task"), rd("data", "", "healed", "h"),
+		rd("rekey", "", "", "h2"), rd("data", "", "healed-3", "h3")}, "hist-finding-reply-lost-roll-again")
+	runHistory([]round{c, rd("rekey", "lost-after", "", ""), rd("rekey", "lost-before", "", ""), rd("batch", "", "queued-behind-refused-roll", "q"), rd("data", "", "healed", "h"),
+		rd("rekey", "", "", ""), rd("data", "", "p", "q")}, "hist-finding-reply-lost-roll-again")
+	runHistory([]round{c, rd("rekey", "lost-before", "", ""), rd("rekey", "", "", "x"), rd("data", "", "desynced", "d")}, "hist-finding-announcement-lost-roll-again")
+	runHistory([]round{c, rd("rekey", "write", "", ""), rd("rekey", "", "", "r"), rd("rekey", "", "", "r2"), rd("data", "", "p", "q"), rd("rekey", "", "", ""), rd("rekey", "", "", ""), rd("data", "", "p2", "q2")}, "hist-corpus")
 	// KNOWN FINDING rekey-reply-lost-then-write-failed: ... and before the client could swap, a write fails: the revert discards the key the server already uses
 	runHistory([]round{c, rd("data", "", "before", "b"), rd("rekey", "lost-after", "", ""), rd("data", "write", "never-sent", ""), rd("data", "", "secret-payload", "server-task"),
 		rd("data", "", "still-garbled", "g"), rd("data", "", "for-good", "f")}, "hist-finding-reply-lost-then-write-failed")
